@@ -1047,4 +1047,38 @@ theorem closed_forever (s t : State AcM) (hs : AInv s) (hodd : s.sh % 2 = 1) (hr
 
 end ActiveCall
 
+/-! ## sequences of API calls -/
+
+theorem ordered_append {α : Type} (rank : Nat → Nat) (p q : List (Act α)) :
+    ∀ held, ordered rank held p = true → ordered rank [] q = true → ordered rank held (p ++ q) = true := by
+  induction p with
+  | nil =>
+    intro held h hq
+    simp only [ordered, List.isEmpty_iff] at h
+    subst h; exact hq
+  | cons a p ih =>
+    intro held h hq
+    cases a <;> simp only [List.cons_append, ordered, Bool.and_eq_true] at h ⊢
+    · exact ⟨h.1, ih _ h.2 hq⟩
+    · exact ⟨h.1, ih _ h.2 hq⟩
+    all_goals exact ih _ h hq
+
+/-- a goroutine that performs a sequence of API calls, each call being one of the extracted
+per-method programs -/
+def callerThread (calls : List (List (Nat × Nat))) : Thread Unit :=
+  { prog := (calls.map (ofEvents Unit)).flatten }
+
+theorem ordered_calls (progs : List (List (Nat × Nat)))
+    (hp : ∀ p ∈ progs, ordered id [] (ofEvents Unit p) = true) :
+    ∀ calls : List (List (Nat × Nat)), (∀ c ∈ calls, c ∈ progs) →
+      ordered id [] ((calls.map (ofEvents Unit)).flatten) = true := by
+  intro calls
+  induction calls with
+  | nil => intro _; rfl
+  | cons c cs ih =>
+    intro h
+    simp only [List.map_cons, List.flatten_cons]
+    exact ordered_append id _ _ [] (hp c (h c (by simp))) (ih (fun c' hc' => h c' (by simp [hc'])))
+
+
 end Gotlcp.Lemmas.Locks
